@@ -22,7 +22,7 @@ Proof.
   intros c s it s' r d H Hf.
   unfold step, step_greet, step_ready, step_mail, step_mail_from, step_data in H.
   destruct (st s) eqn:Es; step_cases; try discriminate Hf; try reflexivity;
-    try (unfold ehlo_reply; destruct (tls_enabled c); reflexivity).
+    try (unfold ehlo_reply; destruct (tls_enabled c && negb (tls _)); reflexivity).
 Qed.
 
 (** The two reply sites whose code is an extension's: MAIL and RCPT denied by a hook. *)
@@ -33,7 +33,7 @@ Proof. reflexivity. Qed.
 Definition p0 : pcfg := {| def_accept := false; accept_l := []; reject_l := []; def_store := true; store_l := [];
                            discard_l := []; reject_origin_l := [] |}.
 Definition c0 : scfg := {| pol := p0; max_rcpt := 1; max_bytes := 10; tls_enabled := false |}.
-Definition sess (x : sstate) : session := {| st := x; from := None; rcpts := []; helo := [104] |}.
+Definition sess (x : sstate) : session := {| st := x; from := None; rcpts := []; helo := [104]; tls := false |}.
 Definition og : origin := {| o_addr := [97]; o_domain := [98] |}.
 Definition rc : recipient := {| r_addr := [97]; r_domain := [98]; r_mailbox := [97] |}.
 Definition witnesses : list (session * item) :=
@@ -42,15 +42,15 @@ Definition witnesses : list (session * item) :=
     (sess READY, L Noop);                                   (* 250 *)
     (sess READY, L Vrfy);                                   (* 252 *)
     (sess READY, L (Auth ALogin));                          (* 334 *)
-    ({| st := MAIL; from := Some og; rcpts := [rc]; helo := [104] |}, L (DataC true));             (* 354 *)
-    ({| st := DATA; from := Some og; rcpts := [rc]; helo := [104] |}, B (PBlock [] None None));    (* 451 *)
+    ({| st := MAIL; from := Some og; rcpts := [rc]; helo := [104]; tls := false |}, L (DataC true));             (* 354 *)
+    ({| st := DATA; from := Some og; rcpts := [rc]; helo := [104]; tls := false |}, B (PBlock [] None None));    (* 451 *)
     (sess READY, L Starttls);                               (* 454 *)
     (sess READY, L Unknown);                                (* 500 *)
     (sess READY, L (Mail MBadSyntax NoAns));                (* 501 *)
     (sess READY, L Unimpl);                                 (* 502 *)
     (sess GREET, L Rset);                                   (* 250 *)
     (sess GREET, L (Mail MBadSyntax NoAns));                (* 503 *)
-    ({| st := MAIL; from := Some og; rcpts := []; helo := [104] |}, L (Rcpt (RParsed (Some rc)) NoAns));   (* 550 *)
+    ({| st := MAIL; from := Some og; rcpts := []; helo := [104]; tls := false |}, L (Rcpt (RParsed (Some rc)) NoAns));   (* 550 *)
     (sess READY, L (Mail (MParsed (SzVal 11) (Some og)) NoAns)) ].                                  (* 552 *)
 Definition writes (w : session * item) (code : Z) : bool :=
   hook_code_free (snd w) &&
